@@ -43,13 +43,13 @@ PROPS = {
     "C16": dict(fam=["pause"], mc=["pause"], inv=["Inv_C04", "Inv_C01"], step=["Step_C16"]),
     "C17": dict(fam=["trk", "trkccw"], mc=["trk", "dead"], inv=["Inv_C17"], step=["Step_C17"]),
     "C18": dict(fam=["dead", "dead3", "exdead"], mc=["dead"], inv=["Inv_C18"], step=["Step_C18"]),
-    "C19": dict(fam=["ps", "psfifo"], mc=["ps"], inv=["Inv_C19"], step=["Step_C19"]),
+    "C19": dict(fam=["ps", "psfifo", "psprio"], mc=["ps", "psprio"], inv=["Inv_C19"], step=["Step_C19"]),
     "C20": dict(fam=["exact", "eps", "exactT", "exmix"], mc=["exact"], inv=[], step=["Step_C20"]),
     "C14": dict(fam=["stopcount", "ppblock", "slotpreblock", "exactT", "exdead", "pbar", "exmix", "mix2", "core1", "tandem", "prio", "cls", "renege", "route", "preempt"],
                 mc=["core1", "stopcount", "renegesched", "jsqsched", "ppblock"], inv=[], step=["Step_C14"]),
 }
 
-ALLFAM = ["mix", "mix2", "mix2", "ppccw", "eps", "exactT", "fpbjsq", "exdead", "pbar", "exmix", "slotren", "preblock", "overblock", "trkccw", "ppblock", "ppzero", "slotblock", "slotpreblock", "pause", "date0", "jsqsched", "dead3", "jockey", "slotpre", "renegesched", "schedblock", "infblock", "ppsched", "ps", "core1", "tandem", "prio", "preempt", "cls", "clsren", "renege", "route", "sched", "schedpre", "schedblock",
+ALLFAM = ["mix", "mix2", "mix2", "ppccw", "eps", "exactT", "fpbjsq", "exdead", "pbar", "exmix", "psprio", "slotren", "preblock", "overblock", "trkccw", "ppblock", "ppzero", "slotblock", "slotpreblock", "pause", "date0", "jsqsched", "dead3", "jockey", "slotpre", "renegesched", "schedblock", "infblock", "ppsched", "ps", "core1", "tandem", "prio", "preempt", "cls", "clsren", "renege", "route", "sched", "schedpre", "schedblock",
           "slot", "ccw", "trk", "reroute", "stopcount"]
 
 # vacuity gates (DESIGN section 5): witness tags that the validated traces of a check must contain at least once,
